@@ -181,6 +181,10 @@ class StdlibMixin:
         eng.note("[E-JSON]")
         obj = args[0]
         enc = kwargs.get("cls")
+        extra = sorted(set(kwargs) - {"cls"})
+        if extra or len(args) > 1:
+            # the trusted spec [E-JSON] is stated for json.dumps(obj[, cls=Encoder]) with every other option at its default
+            raise Unsupported("json.dumps with option(s) " + ", ".join(extra or ["<positional>"]) + " is outside the trusted [E-JSON] spec")
         if isinstance(obj, ObjV):
             # json.dumps(node, cls=SyncedCollectionJSONEncoder): the encoder's default() hands out o._data for
             # synced nodes (contract of utils.default, verified under C12), so the text is that of the plain view
